@@ -109,8 +109,9 @@ def _run(structure, stream, bundle):
     self.name = "w"
     results, errors = GhostQueue(), GhostQueue()
     ctx.ghost["c05_stream"] = stream
-    self._process_caller(results, errors, "worker-1", None, bundle, None, None, matches=_matches(structure), filesets=None,
-                         skip_file_errors=True)
+    # (a static method that receives the Collocator explicitly: it is the target of multiprocessing.Process)
+    Collocator._process_caller(self, results, errors, "worker-1", None, bundle, None, None, matches=_matches(structure), filesets=None,
+                               skip_file_errors=True)
     return results.items, errors.items
 
 
@@ -120,6 +121,10 @@ def _flatten(puts):
         if result is not None:
             out.extend(result[1])
     return out
+
+
+for _f in (_run, _flatten, _matches):
+    _f.__pyvc_thm__ = True
 
 
 # result streams: (secondaries per primary, what _collocate_matches yields for them).  A token's day / primary decide the
@@ -174,7 +179,7 @@ def thm_crash():
         self.name = "w"
         results, errors = GhostQueue(), GhostQueue()
         ctx.ghost["c05_stream"] = stream
-        raised = expect_raises(Boom, self._process_caller, results, errors, "worker-1", None, bundle, None, None,
+        raised = expect_raises(Boom, Collocator._process_caller, self, results, errors, "worker-1", None, bundle, None, None,
                                matches=_matches([2]), filesets=None, skip_file_errors=False)
         ensures(raised, id="an exception in the worker reaches its caller [bundle=%s]" % bundle)
         ensures(results.items[-1][2] is ProcessCrashed and results.items[-1][1] == 100.0,
